@@ -759,6 +759,33 @@ func hoistable(info *types.Info, stack []ast.Node, ci int, call *ast.CallExpr) (
 			region = st.Cond
 		}
 		kind = "hoist-if"
+	case *ast.RangeStmt:
+		// the range expression is evaluated once, before the loop
+		inX := false
+		for i := si + 1; i <= ci; i++ {
+			if stack[i] == ast.Node(st.X) {
+				inX = true
+			}
+		}
+		if !inX {
+			return nil, "", nil
+		}
+		region, kind = st.X, "hoist-range"
+	case *ast.SwitchStmt:
+		// the tag (no init statement) is evaluated once, before the cases
+		if st.Init != nil || st.Tag == nil {
+			return nil, "", nil
+		}
+		inTag := false
+		for i := si + 1; i <= ci; i++ {
+			if stack[i] == ast.Node(st.Tag) {
+				inTag = true
+			}
+		}
+		if !inTag {
+			return nil, "", nil
+		}
+		region, kind = st.Tag, "hoist-switch"
 	default:
 		return nil, "", nil
 	}
@@ -1093,9 +1120,16 @@ func (s *site) rewrite(h *helper, n int) (edit, string) {
 	stmtStart := fset.Position(s.stmt.Pos())
 	stmtEnd := fset.Position(s.stmt.End())
 	isIf := false
-	if ifs, ok := s.stmt.(*ast.IfStmt); ok {
+	switch hs := s.stmt.(type) {
+	case *ast.IfStmt:
 		// only the header is replaced; the body stays where it is
-		stmtEnd = fset.Position(ifs.Body.Lbrace)
+		stmtEnd = fset.Position(hs.Body.Lbrace)
+		isIf = true
+	case *ast.RangeStmt:
+		stmtEnd = fset.Position(hs.Body.Lbrace)
+		isIf = true
+	case *ast.SwitchStmt:
+		stmtEnd = fset.Position(hs.Body.Lbrace)
 		isIf = true
 	}
 	fmt.Fprintf(&b, "//line %s:%d\n", s.filename, stmtStart.Line)
@@ -1111,7 +1145,7 @@ func (s *site) rewrite(h *helper, n int) (edit, string) {
 		if len(rnames) == 0 {
 			return edit{}, "result of a helper without results used"
 		}
-		if (s.kind == "if-cond" || s.kind == "hoist" || s.kind == "hoist-if") && len(rnames) != 1 {
+		if (s.kind == "if-cond" || strings.HasPrefix(s.kind, "hoist")) && len(rnames) != 1 {
 			return edit{}, "multi-value helper inside an expression"
 		}
 		stmtRepls = append(stmtRepls, repl{cs, ce, resultExpr})
